@@ -307,7 +307,7 @@ class Hist:
             g.load()
         N = cfg['N']
         mgmt = cfg.get('ops') == 'mgmt'
-        alphabet = ('call', 'dump', 'load', 'clear', 'clear_keep', 'off', 'on')
+        alphabet = ('call', 'dump', 'load', 'clear', 'clear_keep', 'off', 'on', 'swap')
         fixed = cfg.get('pattern')           # compaction histories: step i re-uses atom pattern[i] (None = fresh)
         atoms = []
         script = cfg.get('script')           # a fixed sequence of operations (named scenarios); arguments stay symbolic
@@ -568,6 +568,12 @@ class _State:
                         if is_unstorable(v):
                             continue
                         ctx.check((v in vals_mem) or (v in vals_arch), 'C07:retrievable', {'kind': 'computed result lost'})
+        if 'C06' in props and not self.tracked and not self.purge_active():
+            # after a bulk load() the use records say nothing about the loaded entries: the victim is not judged,
+            # but a hit still removes nothing and nothing appears from nowhere
+            ctx.check(not alien, 'C06:no-alien', {'kind': 'entry appeared from nowhere'})
+            if q in B:
+                ctx.check(not removed, 'C06:hit-keeps', {'kind': 'hit removed an entry'})
         if 'C06' in props and self.tracked and not self.purge_active():
             lab = 'C06:%s' % self.algo
             ctx.check(not alien, 'C06:no-alien', {'kind': 'entry appeared from nowhere'})
@@ -647,6 +653,13 @@ class _State:
                 except ValueError:
                     pass
                 self.lossless = False
+            elif op == 'swap':
+                # replace the archive through the wrapper's own archive(obj): results left in the old archive are out of reach
+                import klepto.archives as KA
+                self.nswap = getattr(self, 'nswap', 0) + 1
+                g.archive(KA.dict_archive('swapped%d' % self.nswap, cached=False))
+                self.lossless = False
+                mem0, arch0 = self.snap()
             mem, arch = self.snap()
             info = g.info()
         except (PathPruned, Inconclusive):
@@ -731,6 +744,8 @@ def plan(prop, tier):
         'refill': [C, C, 'clear', C, C, C],                  # overflow/purge, clear(), overflow/purge again
         'reload': [C, C, 'dump', 'clear', 'load', C, C, C],  # entries that are resident without a recorded use
         'toggle': [C, C, 'off', C, C, 'on', C, C],           # evictions while archiving is switched off
+        'swap': [C, C, C, 'swap', C, C],                     # evict, reload, replace the archive, evict again
+        'attach': ['swap', C, C, C],                         # the archive is attached after decoration
     }
 
     def add_scenarios(props_raises=True):
@@ -743,6 +758,10 @@ def plan(prop, tier):
                     if a in BOUNDED:
                         for sname, sc in SCRIPTS.items():
                             if q and sname == 'toggle':
+                                continue
+                            if sname == 'attach':
+                                # decorated without an archive (purge requested or not), archive attached later
+                                add(module=m, algo=a, purge=p, backend='none', script=sc, scenario=sname)
                                 continue
                             add(module=m, algo=a, purge=p, backend='cached_dict', script=sc, scenario=sname)
                 if a in BOUNDED and prop != 'C05':
@@ -824,6 +843,9 @@ def plan(prop, tier):
                     add(module=m, algo=a, backend='cached_dict', N=n, maxsize=ms, split=3 if n >= 8 else 0)
             add(module=m, algo='lru', backend='none', N=24, maxsize=2, pattern=[None, None] + [i % 2 for i in range(2, 21)],
                 scenario='compaction2')
+            for a in BOUNDED:
+                # a bulk load() that fills or overfills the cache, then calls (hits on entries without a use record)
+                add(module=m, algo=a, backend='cached_dict', N=3 if q else 4, preload=3, scenario='preload')
             # LRU queue compaction: maxsize=1, 11 uses of one key, then two free calls
             add(module=m, algo='lru', backend='none', N=13, maxsize=1, pattern=[None] + [0] * 10, scenario='compaction1')
             if not q:
